@@ -39,3 +39,7 @@ def run(ctx):
     from props import C01, C06
     import premises
     premises.forest(ctx)
+    # a NaN or otherwise undefined normal is neither a plane nor the exempt zero plane: the centroid / normalisation guards
+    # that keep NaN out of split normals (C20's R-CENTROID) are part of "routed to itself"
+    from props import C20
+    C20.r_centroid(ctx)
